@@ -2,6 +2,9 @@ module verif/harness
 
 go 1.13
 
-require github.com/casbin/casbin/v2 v2.0.0
+require (
+	github.com/casbin/casbin/v2 v2.0.0
+	github.com/casbin/govaluate v1.3.0
+)
 
 replace github.com/casbin/casbin/v2 => /repo
